@@ -879,6 +879,14 @@ func (i Info16) Classes() []string {
 		case i.Val >= 4<<10:
 			c = append(c, "complete_record_body_4KiB_to_64KiB")
 		}
+		if i.Val >= 1<<20 {
+			c = append(c, "complete_record_body_ge_1MiB")
+		}
+		for _, m := range []uint{12, 16, 20} {
+			if i.Val >= 1<<m && i.Val&(1<<m-1) == 0 {
+				c = append(c, fmt.Sprintf("complete_record_body_whole_number_of_2^%d_byte_blocks", m))
+			}
+		}
 	}
 	return c
 }
